@@ -29,7 +29,9 @@ INPUTS = os.path.join(VERIF, "known_inputs.json")
 def known_inputs(prop):
     """pred -> set of '<case digest>:<hash seed>' witnesses on the fixed corpus (committed file, never written at run time)"""
     if not os.path.exists(INPUTS):
-        return {}
+        return None
     with open(INPUTS) as f:
         d = json.load(f)
-    return {k: set(v) for k, v in d.get(prop, {}).items()}
+    if prop not in d:
+        return None
+    return {k: set(v) for k, v in d[prop].items()}
